@@ -340,13 +340,14 @@ func Run(c *core.Ctx, replay string) (*core.Result, error) {
 		}
 	}
 	// reproduce rejections on the real code before reporting
+	var notReproduced []string
 	for i, why := range rejected {
 		if replay != "" {
 			res.Violations = append(res.Violations, core.Violation{Key: classOf(why), What: why, Replay: traces[i].job})
 			continue
 		}
 		var again []job
-		for k := 0; k < 4; k++ {
+		for k := 0; k < 6; k++ {
 			j := traces[i].job
 			j.ID = 100000 + k
 			again = append(again, j)
@@ -362,8 +363,13 @@ func Run(c *core.Ctx, replay string) (*core.Result, error) {
 		if len(rej2) > 0 || len(races2) > 0 {
 			res.Violations = append(res.Violations, core.Violation{Key: classOf(why), What: why + " (reproduced)", Replay: traces[i].job})
 		} else {
-			return nil, core.Inconcl("trace of job %d rejected (%s) but not reproduced in 4 re-runs", traces[i].job.ID, why)
+			notReproduced = append(notReproduced, fmt.Sprintf("trace of job %d rejected (%s) but not reproduced in 6 re-runs", traces[i].job.ID, why))
 		}
+	}
+	// a schedule-dependent rejection may not come back on demand: it only makes the run inconclusive when
+	// no rejection at all could be reproduced
+	if len(notReproduced) > 0 && len(res.Violations) == 0 {
+		return nil, core.Inconcl("%s", strings.Join(notReproduced, "; "))
 	}
 
 	// negative control: a corrupted copy of an accepted trace must be rejected (binding is live)
